@@ -692,6 +692,10 @@ def gen_print(draw, env):
     kind = pick(draw, ['print', 'println', 'println', 'printf'])
     if kind == 'printf':
         fields = rint(draw, 0, 3)
+        if env.in_routine() and flip(draw):
+            # a printf without positional fields, run while an outer printf
+            # (the caller's) may be collecting its values
+            fields = 0
         named = []
         if readable_nums(env) and flip(draw):
             named.append(pick(draw, readable_nums(env)))
@@ -701,8 +705,10 @@ def gen_print(draw, env):
         parts = ['{}'] * fields + ['{' + n + '}' for n in named]
         parts = draw(st.permutations(parts))
         fmt = ' '.join(['v'] + list(parts))
-        return [['printf', ['str', fmt],
-                 [num_expr(draw, env, 1) for _ in range(fields)]]]
+        args = [num_expr(draw, env, 1) for _ in range(fields)]
+        if fields >= 2 and functions(env) and flip(draw):
+            args[-1] = call_expr(draw, env, pick(draw, functions(env)), 0)
+        return [['printf', ['str', fmt], args]]
     value = pick(draw, [
         num_expr(draw, env, 2), bool_expr(draw, env, 1),
         ['str', 'text']] + ([['var', sorted(env.light_defined)[0]]]
